@@ -13,6 +13,8 @@ Definition op_wf (o : op) : Prop :=
   match o with
   | NewEpoch | Snapshot => True
   | Donate sender _ amount => sender <> SELF /\ 0 <= amount
+  | Gift sender _ _ amount => sender <> SELF /\ 0 <= amount
+  | HelperDeposit user fs _ _ _ _ _ _ _ _ => user <> SELF /\ funds_wf fs
   | OpenFlow sender fs _ _ _ _ amount _ => sender <> SELF /\ funds_wf fs /\ 0 <= amount
   | ExpandFlow sender fs _ _ _ _ amount => sender <> SELF /\ funds_wf fs /\ 0 <= amount
   | OpenPosition sender fs _ amount _ _ => sender <> SELF /\ funds_wf fs /\ 0 <= amount
@@ -460,6 +462,94 @@ Proof. intros H HP. apply Forall_forall. intros x Hx. apply H; [assumption|]. ea
 Lemma msdelta_self_send to a amt s : to <> SELF -> msdelta [MSend to a amt] SELF s = - amt_if s a amt.
 Proof. intros. cbn [msdelta]. rewrite mdelta_send_self by assumption. lia. Qed.
 
+(* position operations as calls (used for direct calls and for the frontend helper) *)
+Lemma inv_same_self c st b :
+  Inv c st -> (forall a, b SELF a = s_bal st SELF a) ->
+  Inv c (mkState (s_epoch st) b (s_flows st) (s_counter st) (s_open st) (s_closed st) (s_gw st) (s_aw st) (s_snap st) (s_awh st) (s_last st)).
+Proof.
+  intros [Icl Iid Ictr Ihist Icre Icov] Hb. constructor; cbn; auto.
+  intros a. rewrite Hb. specialize (Icov a). unfold oblig, staked in *. cbn. exact Icov.
+Qed.
+
+Lemma open_position_inv c st sender fs al amount d recv st2 :
+  Inv c st -> sender <> SELF -> funds_wf fs ->
+  call st sender fs al (open_position c st sender fs al amount d recv) = Ok st2 -> Inv c st2.
+Proof.
+  intros [Icl Iid Ictr Ihist Icre Icov] Hs Hfw Hstep.
+  apply call_ok in Hstep as [st1 [ms [Eh [Hbal Est]]]].
+  unfold open_position in Eh. apply bind_ok in Eh as [u0 [_ Eh]]. apply bind_ok in Eh as [ms0 [Ev Eh]].
+  apply bind_ok in Eh as [u1 [_ Eh]]. apply bind_ok in Eh as [w [_ Eh]]. apply bind_ok in Eh as [[[gw aw] awh] [_ Eh]].
+  inversion Eh; subst st1 ms; clear Eh.
+  destruct (validate_funds_spec _ _ _ _ _ _ Ev Hs Hfw) as [M1 [M2 _]].
+  rewrite Est. constructor; cbn; auto.
+  intros a. rewrite Hbal, fdelta_self by assumption. unfold oblig, staked. cbn. rewrite pos_sum_app.
+  specialize (Icov a). unfold oblig, staked in Icov. unfold pos_sum at 2. cbn.
+  destruct (a =? c_lp c) eqn:E.
+  + apply Z.eqb_eq in E. subst a. lia.
+  + apply Z.eqb_neq in E. specialize (M2 a E). lia.
+Qed.
+
+Lemma expand_position_inv c st sender fs al amount d recv st2 :
+  Inv c st -> sender <> SELF -> funds_wf fs ->
+  call st sender fs al (expand_position c st sender fs al amount d recv) = Ok st2 -> Inv c st2.
+Proof.
+  intros [Icl Iid Ictr Ihist Icre Icov] Hs Hfw Hstep.
+  apply call_ok in Hstep as [st1 [ms [Eh [Hbal Est]]]].
+  unfold expand_position in Eh. apply bind_ok in Eh as [ms0 [Ev Eh]].
+  destruct (pos_add _ d amount (s_open st)) as [op'|] eqn:Ep; [|discriminate].
+  apply bind_ok in Eh as [u1 [_ Eh]]. apply bind_ok in Eh as [w [_ Eh]]. apply bind_ok in Eh as [[[gw aw] awh] [_ Eh]].
+  inversion Eh; subst st1 ms; clear Eh.
+  destruct (validate_funds_spec _ _ _ _ _ _ Ev Hs Hfw) as [M1 [M2 _]].
+  rewrite Est. constructor; cbn; auto.
+  intros a. rewrite Hbal, fdelta_self by assumption. unfold oblig, staked. cbn. rewrite (pos_add_sum _ _ _ _ _ Ep).
+  specialize (Icov a). unfold oblig, staked in Icov.
+  destruct (a =? c_lp c) eqn:E.
+  + apply Z.eqb_eq in E. subst a. lia.
+  + apply Z.eqb_neq in E. specialize (M2 a E). lia.
+Qed.
+
+(* ---- frontend helper: its ledger moves never touch the incentive contract's own balances ----------------------------- *)
+Lemma transfer_other b from to a amt b' x s : transfer b from to a amt = Ok b' -> x <> from -> x <> to -> b' x s = b x s.
+Proof.
+  intros H H1 H2. rewrite (transfer_delta _ _ _ _ _ _ H). unfold tdelta.
+  destruct (x =? to) eqn:E1; [apply Z.eqb_eq in E1; congruence|].
+  destruct (x =? from) eqn:E2; [apply Z.eqb_eq in E2; congruence|]. destruct (s =? a); lia.
+Qed.
+Lemma move_coins_other fs : forall b from to b' x s, move_coins fs b from to = Ok b' -> x <> from -> x <> to -> b' x s = b x s.
+Proof.
+  induction fs as [|[d a] r IH]; cbn; intros b from to b' x s H H1 H2; [inversion H; reflexivity|].
+  apply bind_ok in H as [b1 [E H]]. rewrite (IH _ _ _ _ _ _ H H1 H2). eapply transfer_other; eauto.
+Qed.
+Lemma HELPER_not_SELF : HELPER <> SELF. Proof. discriminate. Qed.
+Lemma PAIR_not_SELF : PAIR <> SELF. Proof. discriminate. Qed.
+
+Lemma helper_deposit_self v c st user fs al a0 d0 a1 d1 dur pair_ok minted oh eh r b6 lpb :
+  helper_deposit v c st user fs al a0 d0 a1 d1 dur pair_ok minted oh eh = Ok (r, b6, lpb) -> user <> SELF ->
+  (forall a, b6 SELF a = s_bal st SELF a) /\
+  (if has_pos user dur (s_open st)
+   then eh (mkState (s_epoch st) b6 (s_flows st) (s_counter st) (s_open st) (s_closed st) (s_gw st) (s_aw st) (s_snap st) (s_awh st) (s_last st)) lpb
+   else oh (mkState (s_epoch st) b6 (s_flows st) (s_counter st) (s_open st) (s_closed st) (s_gw st) (s_aw st) (s_snap st) (s_awh st) (s_last st)) lpb) = Ok r.
+Proof.
+  unfold helper_deposit. intros H Hu.
+  apply bind_ok in H as [u0 [_ H]]. apply bind_ok in H as [b0 [E0 H]]. apply bind_ok in H as [b1 [E1 H]].
+  apply bind_ok in H as [b2 [E2 H]]. apply bind_ok in H as [u1 [_ H]]. apply bind_ok in H as [b3 [E3 H]].
+  apply bind_ok in H as [b4 [E4 H]]. apply bind_ok in H as [b5 [E5 H]]. apply bind_ok in H as [u2 [_ H]].
+  apply bind_ok in H as [u3 [_ H]]. apply bind_ok in H as [r0 [Er H]]. inversion H; subst; clear H.
+  split; [|exact Er].
+  intros a. unfold upd_bal. destruct (SELF =? HELPER) eqn:E; [discriminate|]. cbn [andb].
+  assert (H5 : b5 SELF a = b4 SELF a).
+  { unfold helper_forward in E5. destruct (is_native a1); [inversion E5; reflexivity|]. eapply (transfer_other _ _ _ _ _ _ SELF a); [exact E5|discriminate|discriminate]. }
+  assert (H4 : b4 SELF a = b3 SELF a).
+  { unfold helper_forward in E4. destruct (is_native a0); [inversion E4; reflexivity|]. eapply (transfer_other _ _ _ _ _ _ SELF a); [exact E4|discriminate|discriminate]. }
+  assert (H3 : b3 SELF a = b2 SELF a) by (eapply (move_coins_other _ _ _ _ _ SELF a); [exact E3|discriminate|discriminate]).
+  assert (H2 : b2 SELF a = b1 SELF a).
+  { unfold helper_pull in E2. destruct (is_native a1); [inversion E2; reflexivity|]. destruct (_ =? d1); [|discriminate]. eapply (transfer_other _ _ _ _ _ _ SELF a); [exact E2|congruence|discriminate]. }
+  assert (H1 : b1 SELF a = b0 SELF a).
+  { unfold helper_pull in E1. destruct (is_native a0); [inversion E1; reflexivity|]. destruct (_ =? d0); [|discriminate]. eapply (transfer_other _ _ _ _ _ _ SELF a); [exact E1|congruence|discriminate]. }
+  assert (H0 : b0 SELF a = s_bal st SELF a) by (eapply (move_coins_other _ _ _ _ _ SELF a); [exact E0|congruence|discriminate]).
+  congruence.
+Qed.
+
 Theorem step_inv c st o st2 :
   cfg_wf c -> op_wf o -> Inv c st -> step v_fixed c st o = Ok st2 -> Inv c st2.
 Proof.
@@ -474,6 +564,11 @@ Proof.
     constructor; cbn; auto. intros a. rewrite (transfer_delta _ _ _ _ _ _ Eb). unfold tdelta.
     rewrite Z.eqb_refl. destruct (SELF =? sender) eqn:E; [apply Z.eqb_eq in E; congruence|].
     specialize (Icov a). unfold oblig, staked in *. cbn. destruct (a =? asset), (a =? c_lp c); lia.
+  - (* Gift *)
+    destruct Hwf as [Hs Hamt]. apply bind_ok in Hstep as [b [Eb H]]. inversion H; subst; clear H.
+    constructor; cbn; auto. intros a. rewrite (transfer_delta _ _ _ _ _ _ Eb). unfold tdelta.
+    destruct (SELF =? sender) eqn:E; [apply Z.eqb_eq in E; congruence|].
+    specialize (Icov a). unfold oblig, staked in *. cbn [s_flows s_open s_closed s_bal with_bal]. destruct (a =? asset), (SELF =? to), (a =? c_lp c); lia.
   - (* Snapshot *)
     apply call_ok in Hstep as [st1 [ms [Eh [Hbal Est]]]]. unfold take_snapshot in Eh.
     destruct (aget (s_epoch st) (s_snap st)); [discriminate|]. inversion Eh; subst st1 ms; clear Eh.
@@ -545,30 +640,9 @@ Proof.
       specialize (Icov a). unfold oblig, staked in Icov. unfold ind. rewrite Z.eqb_refl.
       destruct (SELF =? sender) eqn:E; [apply Z.eqb_eq in E; congruence|]. lia.
   - (* OpenPosition *)
-    destruct Hwf as [Hs [Hfw Hamt]]. apply call_ok in Hstep as [st1 [ms [Eh [Hbal Est]]]].
-    unfold open_position in Eh. apply bind_ok in Eh as [u0 [_ Eh]]. apply bind_ok in Eh as [ms0 [Ev Eh]].
-    apply bind_ok in Eh as [u1 [_ Eh]]. apply bind_ok in Eh as [w [_ Eh]]. apply bind_ok in Eh as [[[gw aw] awh] [_ Eh]].
-    inversion Eh; subst st1 ms; clear Eh.
-    destruct (validate_funds_spec _ _ _ _ _ _ Ev Hs Hfw) as [M1 [M2 _]].
-    rewrite Est. constructor; cbn; auto.
-    intros a. rewrite Hbal, fdelta_self by assumption. unfold oblig, staked. cbn. rewrite pos_sum_app.
-    specialize (Icov a). unfold oblig, staked in Icov. unfold pos_sum at 2. cbn.
-    destruct (a =? c_lp c) eqn:E.
-    + apply Z.eqb_eq in E. subst a. lia.
-    + apply Z.eqb_neq in E. specialize (M2 a E). lia.
+    destruct Hwf as [Hs [Hfw Hamt]]. eapply open_position_inv; eauto. constructor; assumption.
   - (* ExpandPosition *)
-    destruct Hwf as [Hs [Hfw Hamt]]. apply call_ok in Hstep as [st1 [ms [Eh [Hbal Est]]]].
-    unfold expand_position in Eh. apply bind_ok in Eh as [ms0 [Ev Eh]].
-    destruct (pos_add _ d amount (s_open st)) as [op'|] eqn:Ep; [|discriminate].
-    apply bind_ok in Eh as [u1 [_ Eh]]. apply bind_ok in Eh as [w [_ Eh]]. apply bind_ok in Eh as [[[gw aw] awh] [_ Eh]].
-    inversion Eh; subst st1 ms; clear Eh.
-    destruct (validate_funds_spec _ _ _ _ _ _ Ev Hs Hfw) as [M1 [M2 _]].
-    rewrite Est. constructor; cbn; auto.
-    intros a. rewrite Hbal, fdelta_self by assumption. unfold oblig, staked. cbn. rewrite (pos_add_sum _ _ _ _ _ Ep).
-    specialize (Icov a). unfold oblig, staked in Icov.
-    destruct (a =? c_lp c) eqn:E.
-    + apply Z.eqb_eq in E. subst a. lia.
-    + apply Z.eqb_neq in E. specialize (M2 a E). lia.
+    destruct Hwf as [Hs [Hfw Hamt]]. eapply expand_position_inv; eauto. constructor; assumption.
   - (* ClosePosition *)
     apply call_ok in Hstep as [st1 [ms [Eh [Hbal Est]]]].
     unfold close_position in Eh. apply bind_ok in Eh as [u0 [_ Eh]].
@@ -588,6 +662,14 @@ Proof.
       specialize (Icov a); unfold oblig, staked in Icov.
     + apply Z.eqb_eq in Ez. cbn. destruct (a =? c_lp c); lia.
     + rewrite msdelta_self_send by assumption. unfold amt_if. destruct (a =? c_lp c); lia.
+  - (* HelperDeposit *)
+    destruct Hwf as [Hu Hfw]. apply bind_ok in Hstep as [[[r b6] lpb] [Eh Hstep]].
+    destruct (helper_deposit_self _ _ _ _ _ _ _ _ _ _ _ _ _ _ _ _ _ _ Eh Hu) as [Hself Hr].
+    pose proof (inv_same_self c st b6 (mkInv c st Icl Iid Ictr Ihist Icre Icov) Hself) as HI1.
+    assert (Hfw0 : funds_wf []) by (repeat split; constructor).
+    destruct (has_pos user dur (s_open st)); rewrite <- Hr in Hstep.
+    + eapply expand_position_inv; [exact HI1|exact HELPER_not_SELF|exact Hfw0|exact Hstep].
+    + eapply open_position_inv; [exact HI1|exact HELPER_not_SELF|exact Hfw0|exact Hstep].
 Qed.
 
 Definition well_formed (c : cfg) (h : list op) : Prop := cfg_wf c /\ Forall op_wf h.
